@@ -360,7 +360,8 @@ def _check_search(case, ctx):
                 return orig(selector, searchrequest, protocol, config, *a, **k)
             HandlerMultiplexer.getHandler = spy
             try:
-                r = drive.serve(cfg, clients.encode(form, world.b(target), search=q), tls=tls, realfd=True)
+                # the request arrives in TCP segments of 7 bytes on a connection the client keeps open
+                r = drive.serve(cfg, clients.encode(form, world.b(target), search=q), tls=tls, realfd=True, segment=7, open_conn=True)
             finally:
                 HandlerMultiplexer.getHandler = orig
             got[form] = seen[0] if seen else "<no handler lookup>"
